@@ -56,7 +56,18 @@ Theorem C10_stacked_route_agrees :
 Proof. move=> *. exact: stacked_route_session. Qed.
 Print Assumptions C10_stacked_route_agrees.
 
-(* the linear-step theorem holds for complex matrices of every shape *)
+(* the linear-step theorems hold for complex matrices of every shape:
+   y_front = sum_j p_j (dt M)^j y_prev, p = symbolic run at step size 1 *)
+Theorem C10_matrix_step_taylor_form :
+  forall (R : fieldType) n m (tb : Model.C10.tableau R) (M : 'M[R]_n) t (y : 'M[R]_(n,m)) dt,
+    mx_step tb (fun _ => M) t y dt
+    = Proofs.C10.peval R 'M[R]_(n,m) +%R *:%R 0 (fun v => dt *: (M *m v)) y
+        (Model.C10.compute_step R (list R) +%R *%R 0 (fun c => c == 0)
+           (Model.C10.padd R +%R) (Model.C10.pscal R *%R) (fun _ => Model.C10.pshift R 0)
+           tb t [:: 1] 1).
+Proof. move=> *. exact: mx_linear_step_taylor. Qed.
+Print Assumptions C10_matrix_step_taylor_form.
+
 Theorem C10_matrix_step_is_kernel_polynomial :
   forall (R : fieldType) n m (tb : Model.C10.tableau R) (M : 'M[R]_n) t (y : 'M[R]_(n,m)) dt,
     mx_step tb (fun _ => M) t y dt
